@@ -53,9 +53,14 @@ def _subst(t, names):
 
 
 def _key_of(n, binds):
+    n = resolve(peel(n))
     n = peel(n)
-    if n.get("k") == "local" and n["id"] in binds:
-        return binds[n["id"]]
+    if n.get("k") == "local":
+        if n["id"] in binds:
+            return binds[n["id"]]
+        for i, kk in binds.items():
+            if canon(i) == canon(n["id"]):
+                return kk
     return None
 
 
@@ -90,14 +95,18 @@ def arm_constraints(arm, binds):
             # `if cond { return Err(..) }`: an early rejection
             cons.add(("reject", normcmp(s_["cond"], names)))
             continue
-        if s_.get("k") == "let" and s_["pat"].get("k") == "pstruct" and "init" in s_ and peel(s_["init"]).get("k") == "local":
-            # `let ArrayType { index_width: iw, data_width: dw } = array_tpe;`: the bindings name the fields of that value
-            src = names.get(peel(s_["init"])["name"], peel(s_["init"])["name"])
-            for fl in s_["pat"]["fields"]:
-                b = binding_of(fl["pat"])
-                if b:
-                    names[b[0]] = "%s.%s" % (src, fl["name"])
-            continue
+        if s_.get("k") == "let" and s_["pat"].get("k") == "pstruct" and "init" in s_:
+            # `let ArrayType { index_width: iw, data_width: dw } = array_tpe;` (or `= x.get_type(ctx).expect_array(..)?`): the bindings name the fields of that value
+            if peel(s_["init"]).get("k") == "local":
+                src = names.get(peel(s_["init"])["name"], peel(s_["init"])["name"])
+            else:
+                src = analyse(s_["init"], binds, names, cons)
+            if isinstance(src, str):
+                for fl in s_["pat"]["fields"]:
+                    b = binding_of(fl["pat"])
+                    if b:
+                        names[b[0]] = "%s.%s" % (src, fl["name"])
+                continue
         if s_.get("k") == "let":
             b = binding_of(s_["pat"])
             target = b[0] if b else None
@@ -112,6 +121,13 @@ def arm_constraints(arm, binds):
         if last:
             result = res if res else analyse_result(expr, binds, names, cons)
     return cons, result, names
+
+
+def tail_of(e):
+    e = peel(e)
+    while e.get("k") == "blockexpr" and not e["b"]["stmts"] and "tail" in e["b"]:
+        e = peel(e["b"]["tail"])
+    return e
 
 
 def analyse(n, binds, names, cons):
@@ -133,6 +149,15 @@ def analyse(n, binds, names, cons):
             v = resolve(cl["body"])
             if v.get("k") == "ctor" and callee(v).endswith("Type::BV"):
                 return ("BV", _subst(show(peel(v["args"][0])).replace(" ", ""), names))
+            if v.get("k") == "ctor" and callee(v).endswith("Type::Array"):
+                return ("Array", _subst(show(peel(v["args"][0])).replace(" ", ""), names))
+        return None
+    if k == "mcall" and inner["name"] == "and_then" and "Result" in (inner.get("path") or "") and len(inner["args"]) == 1:
+        # `check1(..).and_then(|_| check2(..))`: both constraints, the value of the second
+        cl = resolve(inner["args"][0])
+        analyse(inner["recv"], binds, names, cons)
+        if cl.get("k") == "closure":
+            return analyse(tail_of(cl["body"]), binds, names, cons)
         return None
     if k == "mcall" and inner["name"] in ("expect_bv", "expect_bv_of", "expect_array"):
         r = strip_try(resolve(strip_try(inner["recv"])))
@@ -192,6 +217,8 @@ def analyse_result(n, binds, names, cons):
             return ("BV", wtxt(a["args"][0]))
         if a.get("k") == "ctor" and callee(a).endswith("Type::Array"):
             st = peel(a["args"][0])
+            if st.get("k") == "local" and resolve(st).get("k") == "struct":
+                st = resolve(st)              # `let tpe = ArrayType { .. }; Ok(Type::Array(tpe))`
             if st.get("k") == "struct":
                 fs = {f_["name"]: wtxt(f_["e"]) for f_ in st["fields"]}
                 return ("Array", "@" + fs.get("index_width", "?"), "@" + fs.get("data_width", "?"))
